@@ -342,8 +342,11 @@ class MTVRPEnv(RL4COEnvBase):
                 curr_time + dist / td["speed"].squeeze(-1),  # travel time, as in the action mask
                 gather_by_index(td["time_windows"], next_node)[..., 0],
             )
+            # an open route (O) does not travel back: its depot "visit" has no deadline, as in the action mask
+            is_open_return = td["open_route"].squeeze(-1) & (next_node == 0)
             assert torch.all(
-                curr_time <= gather_by_index(td["time_windows"], next_node)[..., 1]
+                (curr_time <= gather_by_index(td["time_windows"], next_node)[..., 1])
+                | is_open_return
             ), "vehicle cannot start service before deadline"
             curr_time = curr_time + gather_by_index(td["service_time"], next_node)
             curr_node = next_node
